@@ -58,6 +58,21 @@ if SYMBOLIC:
     _xc.register_patch(orjson.loads, with_realized_args(orjson.loads))
     _xc.register_patch(orjson.dumps, with_realized_args(orjson.dumps, deep=True))
 
+    # -- shim 3: vars() on an atomic proxy must fail like vars() on the real int/str/bool/float ------------
+    import builtins as _bi
+
+    _orig_vars = _bi.vars
+
+    def _vars(*a):
+        if a:
+            with NoTracing():
+                atomic = isinstance(a[0], CrossHairValue) and _xc.python_type(a[0]) in (int, bool, float, str, bytes, type(None))
+            if atomic:
+                raise TypeError("vars() argument must have __dict__ attribute")
+        return _orig_vars(*a)
+
+    _xc.register_patch(_bi.vars, _vars)
+
     # -- solver statistics ------------------------------------------------------------------------------
     _orig_check = z3.Solver.check
 
